@@ -183,6 +183,19 @@ SPECS += [
                     ["self._step", "self._per_time", "self._initial_interval"]),
 ]
 
+SPECS += [
+    # ---- sdk/output.py : the whole `Output.get_data` (C08 C09 C20) ------------------------------------------------
+    dict(lean="Output_get_data", path="sdk/output.py", qual="Output.get_data", group="Output",
+         fields={"_output_info": "Opt[Unit]", "_out_infos_exchanged": "Int", "_connected_inputs": "Dict[Obj,Opt[Int]]",
+                 "data": DATA, "is_static": "Bool"},
+         params={"time": "Int", "target": "Obj"}, ret="Val", drop_calls=["_check_time"],
+         calls={"self._unpack": "id",
+                "self._interpolate": {"lean": "Output__interpolate", "args": ["self.data", 0], "ret": "Val"},
+                "self._clear_data": {"lean": "Output__clear_data", "args": ["self.data", "self._connected_inputs", 0, 1],
+                                     "stmt": True, "updates": ["_connected_inputs", "data"]}},
+         props=["C08", "C09", "C20"]),
+]
+
 
 def by_group():
     g = {}
